@@ -1,6 +1,7 @@
 package main
 
 import (
+	"fmt"
 	"go/token"
 	"go/types"
 	"sort"
@@ -324,6 +325,24 @@ func (p *Prog) strictPure(v ssa.Value, d int) bool {
 	return false
 }
 
+// factKey: the key under which a branch condition is remembered along a path. Strictly pure conditions are keyed
+// structurally (two evaluations agree); any other condition is keyed by the identity of its SSA value, which is sound
+// when the value is computed once per invocation (its block is not on a cycle), e.g. `isRTX := a != 0 && b != 0`
+// tested twice.
+func (p *Prog) factKey(cond ssa.Value) (string, bool) {
+	if p.strictPure(cond, 0) {
+		return p.pureKey(cond), true
+	}
+	in, ok := cond.(ssa.Instruction)
+	if !ok || in.Block() == nil {
+		return "", false
+	}
+	if reachableFrom(in.Block())[in.Block()] {
+		return "", false
+	}
+	return fmt.Sprintf("id:%p", cond), true
+}
+
 type pathFact struct {
 	cond  ssa.Value
 	truth bool
@@ -367,10 +386,11 @@ func (p *Prog) purePathFacts(fn *ssa.Function) map[*ssa.BasicBlock][]disjunct {
 			return "", pathFact{}, false
 		}
 		f := normFact(condFact{c, from.Succs[0] == to})
-		if !p.strictPure(f.cond, 0) {
+		k, ok := p.factKey(f.cond)
+		if !ok {
 			return "", pathFact{}, false
 		}
-		return p.pureKey(f.cond), pathFact{f.cond, f.truth}, true
+		return k, pathFact{f.cond, f.truth}, true
 	}
 	for iter := 0; iter < 50; iter++ {
 		changed := false
@@ -464,8 +484,8 @@ func (p *Prog) factsAt(b *ssa.BasicBlock) [][]condFact {
 		// drop classes contradicted by dominating pure facts
 		ok := true
 		for _, f := range dom {
-			if p.strictPure(f.cond, 0) {
-				if g, has := d[p.pureKey(f.cond)]; has && g.truth != f.truth {
+			if k, isKey := p.factKey(f.cond); isKey {
+				if g, has := d[k]; has && g.truth != f.truth {
 					ok = false
 				}
 			}
